@@ -41,7 +41,7 @@ def configs(tier):
         cfgs.append({"name": f"template-{name}-search{search}", "template": name, "conv": 0, "search": search, "kind": "template"})
 
     add(["edge", "edge"], 4)
-    for t in ("chain2", "star2", "trideg"):
+    for t in ("chain2", "star2", "trideg", "diamond2pair"):
         tpl(t)
     if not q:
         add(["edge", "edge", "edge"], 4)
